@@ -201,6 +201,33 @@ def check(repo, tier):
                 run.oblige('D2', (entry, scen), not bad)
                 if bad:
                     run.add(F(entry, 'D2', 'concatenate', f'{scen}: ' + '; '.join(bad[:3])))
+        # the operand may be the receiver itself (or its own core list): doubling a chain, in place or not
+        for aslist, overwrite in itertools.product((False, True), (False, True)):
+            scen = f'concatenate(order={d}, other is {"self.cores" if aslist else "self"}, overwrite={overwrite})'
+            entry = f'{TTM}.TT.concatenate'
+
+            def body(sc):
+                a = sc.tt('a', d, 'op', square=False)
+                sc.inputs = (a,)
+                return sc.method(a, 'concatenate', a._attrs['cores'] if aslist else a, overwrite=overwrite)
+            for ch, sc, res, exc in l2.explore(repo, body, typed=False):
+                if exc is not None:
+                    run.oblige('D2', (entry, scen), False)
+                    l2rules.raised_finding(run, 'C02', 'D2', repo, entry, scen, exc)
+                    continue
+                if not l2rules.invariant_obligation(run, 'C02', 'D2', repo, sc, res, entry, scen, chain=False):
+                    continue
+                got = [site_of(c) for c in res._attrs['cores']]
+                want = [('a', k) for k in range(d)] * 2
+                a = sc.inputs[0]
+                bad = []
+                if got != want:
+                    bad.append(f'sites {got}, expected {want}')
+                if (not overwrite) and (res is a or len(a._attrs['cores']) != d or a._attrs['order'] != d):
+                    bad.append('overwrite=False modified self')
+                run.oblige('D2', (entry, scen), not bad)
+                if bad:
+                    run.add(F(entry, 'D2', 'concatenate', f'{scen}: ' + '; '.join(bad[:3])))
         for overwrite in (False, True):
             scen = f'rank_transpose(order={d}, overwrite={overwrite})'
             entry = f'{TTM}.TT.rank_transpose'
